@@ -403,6 +403,9 @@ pub fn run(ctx: &Ctx) -> Report {
         rep.evaluations += 1;
         rep.count(&format!("cbor-outcome:{}", &out[..out.find(' ').unwrap_or(out.len())]));
         if out == "panic" {
+            rep.count("panic-class:via-from_cbor");
+        }
+        if out == "panic" && rep.distribution["panic-class:via-from_cbor"] <= 3 {
             rep.fail(&format!("cbor-panic:{}", hex(&c)), "Program::from_cbor panics on this byte string", json!({"bytes": hex(&c)}), json!("panic"));
         }
         // hex: the same bytes as text, sometimes damaged
@@ -417,6 +420,9 @@ pub fn run(ctx: &Ctx) -> Report {
         let hout = real_hex::<DeBruijn>(&hx);
         rep.evaluations += 1;
         if hout == "panic" {
+            rep.count("panic-class:via-from_hex");
+        }
+        if hout == "panic" && rep.distribution["panic-class:via-from_hex"] <= 2 {
             rep.fail(&format!("hex-panic:{hx}"), "Program::from_hex panics on this string", json!({"text": hx}), json!("panic"));
         }
         let hex_ok = hx.len() % 2 == 0 && hx.chars().all(|ch| ch.is_ascii_hexdigit());
